@@ -65,12 +65,36 @@ def entries(d, places=None) -> list:
     return out
 
 
-def call(fn, *a):
+_KEPT: list = []        # (dictionary handed out earlier, what it contained then)
+
+
+def kept_unchanged(places=None) -> bool:
+    """A dictionary returned earlier belongs to the caller: later calls into the library must not change it."""
+    try:
+        return all(entries(d, p) == e for d, e, p in _KEPT)
+    except Exception:  # noqa: BLE001
+        return False
+
+
+def call(fn, *a, places=None, twice=True):
+    """Call a decode function the way a user may: keep the result, decode again, change one's own copy, decode again."""
     try:
         v = fn(*a)
         if not isinstance(v, dict):
             return {"raised": f"returned {type(v).__name__}", "entries": []}
-        return {"raised": "", "entries": entries(v)}
+        e = entries(v, places)
+        if not kept_unchanged():
+            del _KEPT[:]
+            return {"raised": "EarlierResultChanged", "entries": e}
+        if twice:
+            v.clear()                                   # the caller's own dictionary, to do with as they please
+            v2 = fn(*a)
+            if not isinstance(v2, dict) or entries(v2, places) != e:
+                return {"raised": "SecondCallDiffers", "entries": e}
+            v = v2
+        _KEPT.append((v, e, places))
+        del _KEPT[:-3]
+        return {"raised": "", "entries": e}
     except Exception as ex:  # noqa: BLE001
         return {"raised": type(ex).__name__, "entries": []}
 
@@ -120,7 +144,7 @@ def record(block, eol: str, text: bytes, ident: bytes, origin: str) -> dict:
     auto = call(AutoDecoder().decode_message_payload, text)
     if auto["raised"] == "returned NoneType":
         auto["raised"] = "None"
-    autoh = call(_HIST[0].decode_message_payload, text)
+    autoh = call(_HIST[0].decode_message_payload, text, twice=False)
     if autoh["raised"] == "returned NoneType":
         autoh["raised"] = "None"
     readout = {"raised": "", "entries": []}
@@ -132,7 +156,7 @@ def record(block, eol: str, text: bytes, ident: bytes, origin: str) -> dict:
         except Exception as ex:  # noqa: BLE001
             readout = {"raised": type(ex).__name__, "entries": []}
         try:
-            automsg = call(_HIST[0].decode_message, dlde.DataReadout(ident + b"\r\n" + text + b"!\r\n"))
+            automsg = call(_HIST[0].decode_message, dlde.DataReadout(ident + b"\r\n" + text + b"!\r\n"), twice=False)
         except Exception as ex:  # noqa: BLE001
             automsg = {"raised": type(ex).__name__, "entries": []}
     return {"id": stable_id("p1dec", text.hex(), ident.hex()), "canary": "", "origin": origin, "block": block, "eol": eol, "text": list(text),
@@ -147,7 +171,7 @@ TEXTCH = bytes(c for c in range(32, 127) if c not in b"()*/!")
 
 
 def rand_decimal(rng: random.Random) -> bytes:
-    ip = "0" * rng.choice([0, 0, 1, 4, 8]) + str(rng.choice([0, 1, 9, 12, 230, 999, 4096, 65535, 123456, 99999999, rng.randrange(10 ** rng.randint(1, 9))]))
+    ip = "0" * rng.choice([0, 0, 1, 4, 8, 8, 19, 22, 24]) + str(rng.choice([0, 1, 9, 12, 230, 999, 4096, 65535, 123456, 99999999, rng.randrange(10 ** rng.randint(1, 9))]))
     nf = rng.choice([0, 1, 2, 3, 3])
     if nf == 0:
         return ip.encode() if rng.random() < 0.8 else (ip + ".").encode()
@@ -188,8 +212,8 @@ def rand_block(rng: random.Random):
 
 
 def _job(args):
-    import logging
-    logging.disable(logging.CRITICAL)
+    from .core import set_logging
+    set_logging(args)
     from .drv_p1 import rand_ident
     seed, n = args
     rng = random.Random(seed)
@@ -210,7 +234,9 @@ def run_c11(chk: Check) -> int:
     chk.model("p1", "MC_P1Parse", workers=16, coverage=False, timeout=600)
     cases = tlc.export("p1", "Gen_P1Dec", rundir=chk.rundir, timeout=600, xmx="6g")
     traces = []
+    from .core import set_logging
     for i, c in enumerate(cases):
+        set_logging(i)
         ident = b"/LGF5E360" if i % 7 == 0 else b""
         traces.append(record(c["block"], c["eol"], bytes(c["text"]), ident, "tlc:Gen_P1Dec"))
     chk.cov["behaviours_replayed"] = len(cases)
